@@ -1,12 +1,13 @@
 (* C12  Header text survives encoding.  Statements only.
    What is PROVED here: the round trip for unstructured header values, for EVERY string (C12_roundtrip), the
-   round trip for display names, for EVERY name (C12_display_name), the part about encoded-words, and the
-   unfolding of values that need no encoding.  The round trip of file names (RFC 2231) is established by
-   running the extracted reader on the implementation's output (exhaustive small alphabet + families), see
-   DESIGN.md. *)
+   round trip for display names, for EVERY name (C12_display_name), the round trip for attachment file names
+   shorter than 1000 octets (C12_filename; the bound keeps the section numbers of RFC 2231 continuations at three
+   digits, which is what the encoder's line budget is proved for), the part about encoded-words, and the
+   unfolding of values that need no encoding.  The extracted readers are also run on the implementation's
+   output (exhaustive small alphabet + families + whole messages), see DESIGN.md. *)
 From Coq Require Import Strings.String.
 From LV Require Import Base.Bytes Base.Str Base.Res Base.Base64 Model.HeaderEnc Spec.Rfc2047 Proofs.Rfc2047Proofs
-  Proofs.Base64Proofs Spec.Rfc5322 Proofs.HeaderPlainProofs Base.Utf8 Proofs.HeaderRtProofs Proofs.PhraseProofs.
+  Proofs.Base64Proofs Spec.Rfc5322 Proofs.HeaderPlainProofs Base.Utf8 Proofs.HeaderRtProofs Proofs.PhraseProofs Spec.Rfc2231 Proofs.Rfc2231Proofs.
 
 (* THE property for unstructured values (Subject, Comments, custom text headers): for every header name and
    EVERY well-formed UTF-8 string - any length, any mixture of words that need encoding and words that do not,
@@ -49,6 +50,27 @@ Example C12_display_name_example :
   | _ => False
   end.
 Proof. exists (bs "=?utf-8?b?RG9lLCDDqSAg8J+YgA==?="). vm_compute. split; [reflexivity|]. split; [reflexivity|discriminate]. Qed.
+
+(* THE property for file names: for both disposition types and EVERY well-formed UTF-8 file name shorter than 1000
+   octets, the Content-Disposition field written by ContentDisposition::attachment / inline_with_name is read by an
+   RFC 2183 / RFC 2231 reader (parameters split at ';' outside quoted strings; filename="..." with quoted-pairs;
+   continuations filename*0="...", filename*1="..."; extended values filename*0*=utf-8''%..; Spec/Rfc2231.v) as
+   exactly that disposition type and that file name - whichever of the three forms rfc2231::encode chooses (it fits
+   the line / printable but too long / anything else), wherever the lines are broken; and the encoder neither
+   panics (its unchecked subtraction of the line budget) nor runs out of steps. *)
+Theorem C12_filename : forall kind fname : bytes,
+  kind = bs "attachment" \/ kind = bs "inline" -> utf8_valid fname = true -> (length fname < 1000)%nat ->
+  exists e, content_disposition_encode kind fname = Ok e /\ decode_disposition e = Some (kind, fname).
+Proof. exact filename_roundtrip_utf8. Qed.
+
+Example C12_filename_example :
+  let f := bs "na" ++ [195; 175] ++ bs "ve file (1)" ++ [240; 159; 152; 128] ++ bs ".txt" in
+  let g := bs "a ""quoted"" \\ name that is printable but far too long to fit on the first line of the field.txt" in
+  match content_disposition_encode (bs "attachment") f, content_disposition_encode (bs "inline") g with
+  | Ok e1, Ok e2 => decode_disposition e1 = Some (bs "attachment", f) /\ decode_disposition e2 = Some (bs "inline", g)
+  | _, _ => False
+  end.
+Proof. vm_compute. split; reflexivity. Qed.
 
 (* Every encoded-word the encoder writes - "=?utf-8?b?" base64(word) "?=" for a piece of at most
    45 bytes - is a valid RFC 2047 encoded-word on its own, is at most 75 characters long, and a
@@ -94,3 +116,4 @@ Print Assumptions C12_b64_roundtrip.
 Print Assumptions C12_roundtrip.
 Print Assumptions C12_roundtrip_bytes.
 Print Assumptions C12_display_name.
+Print Assumptions C12_filename.
